@@ -3,6 +3,16 @@
 //
 //   h_config run <script>       executes the script below
 //   h_config mkini <ini path> <group> {<key>=<hex utf-8 value>}...    writes an INI file with QSettings
+//   h_config pretty <script>    several PrettyFormatter objects in ONE process, 1 + 3 emitting threads; prints one line
+//                               "<object> <record, hex UTF-8>" per record an object produced, in order.  Script lines:
+//       layout <L|P|F>          L: every object is the formatter of its own (not installed) Logger: formatPretty(c, w) + a
+//                                  capturing sink, messages by Logger::processMessage from the emitting thread
+//                               P: ONE installed Logger with one scoped sub-pipeline per object (pipeline().formatPretty(c, w) +
+//                                  capturing sink), messages through Qt's macros (every message reaches every object)
+//                               F: bare PrettyFormatter objects, format() called on a LogMessage built by the emitting thread
+//       obj <colorize 0/1> <maxCategoryWidth>
+//       time <epoch seconds>
+//       msg <object mask> <d|w|c|i> <thread 0..3> <category|-> <text>     (mask bit k = delivered to object k; P: all objects)
 //
 // script lines (strings = hex UTF-8 bytes, "-" = empty):
 //   shape <file>                      where to write "<handler classes> <own thread running 0/1>"
@@ -107,13 +117,108 @@ static int mkini(int argc, char **argv)
     return st.status() == QSettings::NoError ? 0 : 1;
 }
 
+// ---- several PrettyFormatter objects in one process
+static std::mutex g_capm;
+struct CaptureSink : public Sink {
+    int k;
+    explicit CaptureSink(int k_) : k(k_) { }
+    void send(const LogMessage &lmsg) override
+    {
+        const QByteArray h = lmsg.formattedMessage().toUtf8().toHex();
+        std::lock_guard<std::mutex> l(g_capm);
+        printf("%d %s\n", k, h.isEmpty() ? "-" : h.constData());
+    }
+};
+static int prettyObjects(const char *script)
+{
+    std::ifstream in(script);
+    std::string line;
+    char layout = 'L';
+    std::vector<std::unique_ptr<Logger>> loggers;
+    std::vector<PrettyFormatterPtr> bare;
+    int nobj = 0;
+    bool installed = false;
+    std::map<std::string, std::unique_ptr<QLoggingCategory>> cats;
+    std::vector<std::unique_ptr<QByteArray>> names;
+    std::unique_ptr<Worker> pool[3];
+    while (std::getline(in, line)) {
+        std::istringstream is(line);
+        std::string op;
+        is >> op;
+        if (op == "layout") { std::string l; is >> l; layout = l.empty() ? 'L' : l[0]; }
+        else if (op == "time") { is >> g_sec; }
+        else if (op == "obj") {
+            int c, w; is >> c >> w;
+            const int k = nobj++;
+            if (layout == 'L') {
+                loggers.emplace_back(new Logger());
+                loggers.back()->formatPretty(c != 0, w);
+                loggers.back()->appendSink(QSharedPointer<CaptureSink>::create(k));
+            } else if (layout == 'P') {
+                SimplePipeline &sub = gQtLogger.pipeline();
+                sub.formatPretty(c != 0, w);
+                sub.appendSink(QSharedPointer<CaptureSink>::create(k));
+                if (!installed) { gQtLogger.installMessageHandler(); installed = true; }
+            } else {
+                bare.push_back(PrettyFormatterPtr::create(c != 0, w));
+            }
+        } else if (op == "msg") {
+            unsigned mask; std::string t, c, x; int w; is >> mask >> t >> w >> c >> x;
+            const QByteArray text = unhex(x);
+            const QByteArray cat = c == "-" ? QByteArray("default") : unhex(c);
+            QLoggingCategory *lc = nullptr;
+            if (c != "-") {
+                auto it = cats.find(c);
+                if (it == cats.end()) {
+                    names.emplace_back(new QByteArray(unhex(c)));
+                    it = cats.emplace(c, std::unique_ptr<QLoggingCategory>(new QLoggingCategory(names.back()->constData()))).first;
+                }
+                lc = it->second.get();
+            }
+            const QtMsgType ty = t[0] == 'd' ? QtDebugMsg : t[0] == 'i' ? QtInfoMsg : t[0] == 'w' ? QtWarningMsg : QtCriticalMsg;
+            auto emit_ = [&] {
+                const char *s = text.constData();
+                if (layout == 'P') {
+                    switch (t[0]) {
+                    case 'd': if (lc) qCDebug((*lc), "%s", s); else qDebug("%s", s); break;
+                    case 'i': if (lc) qCInfo((*lc), "%s", s); else qInfo("%s", s); break;
+                    case 'w': if (lc) qCWarning((*lc), "%s", s); else qWarning("%s", s); break;
+                    case 'c': if (lc) qCCritical((*lc), "%s", s); else qCritical("%s", s); break;
+                    }
+                    return;
+                }
+                const QMessageLogContext ctx("pretty.cpp", 1, "emit", cat.constData());
+                const QString m = QString::fromUtf8(text);
+                for (int k = 0; k < nobj; k++) {
+                    if (!(mask & (1u << k))) continue;
+                    if (layout == 'L') loggers[k]->processMessage(ty, ctx, m);
+                    else {
+                        const LogMessage lmsg(ty, ctx, m);
+                        const QByteArray h = bare[k]->format(lmsg).toUtf8().toHex();
+                        std::lock_guard<std::mutex> l(g_capm);
+                        printf("%d %s\n", k, h.isEmpty() ? "-" : h.constData());
+                    }
+                }
+            };
+            if (w <= 0 || w > 3) emit_();
+            else { if (!pool[w - 1]) pool[w - 1].reset(new Worker()); pool[w - 1]->run(emit_); }
+        }
+    }
+    for (auto &p : pool) p.reset();
+    if (installed) { Logger::restorePreviousMessageHandler(); gQtLogger.clear(); }
+    loggers.clear();
+    fflush(stdout);
+    return 0;
+}
+
 int main(int argc, char **argv)
 {
     setenv("TZ", "UTC", 1);
     tzset();
     if (argc >= 2 && std::string(argv[1]) == "mkini") return mkini(argc, argv);
-    if (argc < 3 || std::string(argv[1]) != "run") return 2;
+    if (argc < 3 || (std::string(argv[1]) != "run" && std::string(argv[1]) != "pretty")) return 2;
     QCoreApplication app(argc, argv);
+    if (std::string(argv[1]) == "pretty") return prettyObjects(argv[2]);
     std::ifstream in(argv[2]);
     std::string line, shapeFile, endMode = "exec";
     std::map<std::string, std::unique_ptr<QLoggingCategory>> cats;
